@@ -134,6 +134,13 @@ def conform(T, case, values, compare_hidden=None):
     if ml is None or rl is None:
         if isinstance(mr, MaskedConst) and rr is __import__("numpy").ma.masked:
             return None
+        if ml is None and rl is None:
+            # object results: both runs must satisfy the contract's (non-indexed) postconditions
+            bad = evaluate_contract(case, values, ("return", rr))
+            badm = evaluate_contract(case, values, ("return", Res(mr)))
+            if not bad and not badm:
+                return None
+            return "object result: real violates %s, model violates %s" % (bad, badm)
         return "non-array results: model %r real %r" % (type(mr), type(rr))
     md, mm = ml
     rd, rm = rl
@@ -193,7 +200,15 @@ def _evaluate_contract(case, mk, ctx, outcome):
         for E, nm, cond in rcl:
             if _conc(cond) is True:
                 bad.append("raises.%s.whenever" % nm)
-        res = res_from_numpy(val) if not isinstance(val, Res) else val
+        if isinstance(val, Res):
+            res = val
+        else:
+            try:
+                import numpy as _np
+
+                res = res_from_numpy(val) if isinstance(val, _np.ndarray) else Res(val)
+            except Exception:  # noqa: BLE001
+                res = Res(val)
         for nm, f in case.post_global(env, res).items():
             if _conc(f) is not True:
                 bad.append("post." + nm)
